@@ -1,18 +1,20 @@
 (* C19/Props.v — the property theorems.  Nothing else. *)
 From Coq Require Import List NArith ZArith Bool Arith Lia.
 From Gen Require Import C19.
-From C19 Require Import Model Wf ProofsParse.
+From C19 Require Import Model Wf Protocol ProofsParse ProofsTotal ProofsProtocol ProofsTie.
 Import ListNotations.
 Local Open Scope N_scope.
 
-(* C19, faithful notation (GSUB side): for every classification of the
-   non-ASCII code points by package unicode (U), every font whose glyph names
-   are distinct identifiers and whose cmap is a finite map into its glyphs, and
-   every list of GSUB1-4 lookups in the form the parser produces (all subsets
-   of the three lookup flags; format 1.1 / 1.2, 2.1, 3.1, 4.1 subtables over
-   glyph lists, ranges, names, numbers and quoted strings): parsing the text
-   written by ExplainGsub gives back exactly the lookup list.  No bound on the
-   number of glyphs below 65536, of lookups, of mappings or on the lengths. *)
+(* ---- faithful notation ---- *)
+
+(* GSUB side: for every classification of the non-ASCII code points by package
+   unicode (U), every font whose glyph names are distinct identifiers and whose
+   cmap is a finite map into its (at most 65535) glyphs, and every list of
+   GSUB1-4 lookups in the form the parser produces (all subsets of the three
+   lookup flags; subtable formats 1.1, 1.2, 2.1, 3.1, 4.1 over glyph names,
+   numbers, quoted strings through the cmap, ranges and glyph sets): parsing
+   the text written by ExplainGsub gives back exactly the lookup list.  No
+   bound on the number of lookups, mappings, or on any length. *)
 Theorem parse_explain_id_fragment_gsub :
   forall (U : uclass) (F : font) (ll : list lookup),
     font_wf U F = true ->
@@ -21,8 +23,8 @@ Theorem parse_explain_id_fragment_gsub :
 Proof. exact parse_explain_gsub. Qed.
 Print Assumptions parse_explain_id_fragment_gsub.
 
-(* the GPOS side: GPOS1 lookups with one or more subtables (formats 1.1 and
-   1.2, value records over XPlacement, YPlacement, XAdvance), the descriptions
+(* GPOS side: GPOS1 lookups with one or more subtables (formats 1.1 and 1.2,
+   value records over XPlacement, YPlacement, XAdvance), the descriptions
    joined by newlines as the callers of ExplainGpos do *)
 Theorem parse_explain_id_fragment_gpos :
   forall (U : uclass) (F : font) (ll : list lookup),
@@ -31,3 +33,94 @@ Theorem parse_explain_id_fragment_gpos :
     M_parse U F (M_explain_gpos U F ll) = POk ll.
 Proof. exact parse_explain_gpos. Qed.
 Print Assumptions parse_explain_id_fragment_gpos.
+
+(* the flag names written and read coincide (defect 5.A-19), on the tables
+   regenerated from explain.go and parser.go on this run *)
+Theorem flag_names_written_are_read :
+  forallb (fun p => if existsb (N.eqb (fst p)) [2; 4; 8]
+                    then match flag_of_name builder_parseFlags (tl (tl (snd p))) with
+                         | Some v => v =? fst p
+                         | None => false
+                         end
+                    else true) builder_explainFlags = true.
+Proof. exact flag_names_agree. Qed.
+Print Assumptions flag_names_written_are_read.
+
+(* the lexer model's single-character table is lexer.go's singleCharTokens *)
+Theorem single_char_table_tied :
+  forall c, option_map ityp_code (single_char c) = assoc c builder_singleCharTokens.
+Proof. exact single_char_tie. Qed.
+Print Assumptions single_char_table_tied.
+
+(* ---- total notation ---- *)
+
+(* Parse of ANY text (any code point sequence), for every unicode
+   classification and every font with at most 65535 glyphs and no cmap entry
+   for glyph 65535: the result is a lookup list, an error whose line number
+   lies inside the text (1 .. 1 + number of newlines), or a keyword of the
+   grammar the model does not cover.  Never a Go panic, and the model's fuel
+   (number of items + 2) is never exhausted: every loop of the parser
+   consumes an item per iteration. *)
+Theorem parse_total :
+  forall (U : uclass) (F : font) (text : list N),
+    total_font_ok F ->
+    total_result (fun l => 1 <= l <= 1 + newlines text) (M_parse U F text).
+Proof. exact parse_total_text. Qed.
+Print Assumptions parse_total.
+
+(* the same for every item stream whose string items carry both quotes (what
+   the lexer guarantees, next theorem), with any set of admissible lines *)
+Theorem parse_total_items :
+  forall (F : font) (ts : list token) (Lok : N -> Prop),
+    total_font_ok F -> toks_ok ts ->
+    Forall (fun t => Lok (tline t)) ts -> Lok (end_line ts) ->
+    total_result Lok (M_parse_tokens F ts).
+Proof. exact parse_tokens_total. Qed.
+Print Assumptions parse_total_items.
+
+Theorem lexer_items_well_formed :
+  forall (U : uclass) (text : list N),
+    toks_ok (M_lex U text) /\
+    Forall (fun t => 1 <= tline t <= 1 + newlines text) (M_lex U text).
+Proof. intros. split; [apply lex_toks_ok|apply lex_lines]. Qed.
+Print Assumptions lexer_items_well_formed.
+
+(* ---- goroutines: the protocol model of Protocol.v ---- *)
+
+(* drain: from every abort point (any number of items still owed by the
+   lexer, any state of a string helper), with or without helper goroutines,
+   under every interleaving: there is no infinite run, and a run can only end
+   with the lexer goroutine finished and Parse returned (no blocked sender on
+   the item channel) *)
+Theorem drain_terminates :
+  forall (with_helper : bool) (l : lex_st) (h : helper_st),
+    Acc (fun s' s => step with_helper s s') (mkP l h PDrain) /\
+    (forall s', reach with_helper (mkP l h PDrain) s' -> stuck with_helper s' ->
+                lx s' = LClosed /\ ps s' = PDone).
+Proof. exact drain_terminates_gen. Qed.
+Print Assumptions drain_terminates.
+
+(* every execution of Parse, aborted or not, is finite and ends like that *)
+Theorem parse_run_ends :
+  forall (with_helper : bool) (n : nat),
+    Acc (fun s' s => step with_helper s s') (init n) /\
+    (forall s', reach with_helper (init n) s' -> stuck with_helper s' ->
+                lx s' = LClosed /\ ps s' = PDone).
+Proof. intros. split; [apply no_infinite_run|apply parse_run_ends_gen]. Qed.
+Print Assumptions parse_run_ends.
+
+(* the code as found (defect 5.A-20): a run that ends with the decodeString
+   helper blocked for ever on a send *)
+Theorem helper_leak_refuted :
+  exists s', reach true (init 1) s' /\ stuck true s' /\ hp s' = HRun 1.
+Proof. exact helper_leak_refuted_gen. Qed.
+Print Assumptions helper_leak_refuted.
+
+(* the repaired code (fixes/C19-decode-string.diff): when a run has ended, no
+   goroutine of Parse is left *)
+Theorem no_goroutine_left :
+  forall (n : nat) s',
+    reach false (init n) s' -> stuck false s' ->
+    lx s' = LClosed /\ hp s' = HNone /\ ps s' = PDone.
+Proof. exact no_goroutine_left_gen. Qed.
+Print Assumptions no_goroutine_left.
